@@ -48,14 +48,7 @@ var alpha3 = []string{"\r", "\ufeff", "\ufffd", "\u2020", "\u0420", "😊", "\""
 // a fourth, small alphabet explored deeper: strings with escapes, line breaks and quotes
 var alpha4 = []string{"\"", "\\", "t", "\n", "a", "'"}
 
-var lexemes = []string{"a", "b1", "_x", "$left", "and", "or", "in", "by", "let", "`q`", "`a``b`", "`", "'s'", "\"t\"", "'a\\'b'", "\"\\n\"", "'", "\"",
-	"0", "007", "1.5", ".5", "5.", "1e3", "1E-2", "1e", "0x1F", "0x", "0xg", "0e0", "1.2.3", "..", ".", ",", "|", "(", ")", "[", "]", "+", "-", "*", "/", "%",
-	"=", "==", "=~", "!=", "!~", "!", "<", "<=", ">", ">=", ";", "//c\n", "// c", "\n", " ", "\t", "\\", "é", "\xff", "\x00", "~", "#", "@", "{", "}", "^", "&", "\u00a0", "\u2028",
-	"\r", "\r\n", "\ufeff", "\ufffd", "\u2020", "\u0420", "\u010d", "三", "😊", "\v", "\f", "\u0085",
-	"0x000000000000000ff", "0x0ffffffffffffffff", "0x10000000000000000", "0x00000000000000000000000000000001", "0xffffffffffffffff", "00000000000000000000000000000000001", "1e00000000000000000001",
-	"0E5", "00E1", "0E-3", "0.0E5", "0X1f", "000", "00.", ".00", "0e", "0E+",
-	"'a\\\r", "\"b\\", "'c\\\n", "`d\r`", "'e\rf'",
-	"\"x\\ty\nz\"", "'p\\tq\n", "r'", "000018446744073709551616", "00018446744073709551615", "0000000000000000000000000000000000000000.50", "`a``b`", "`a```", "`c````d`"}
+var lexemes = gen.Lexicon
 
 func generate(w *mon.W) {
 	maxLen := w.Pick(4, 6)
